@@ -887,6 +887,141 @@ func runMemberMutations(run *hx.Run, r *hx.RNG, b *base) {
 	}
 }
 
+// ---- SHA256SUMS line families: repeated / dropped / permuted / wrong-digest lines, combined
+// with untouched members and with an altered state.bin or meta.json (plain tar and gzip).
+//
+// Alphabet (digests of the ORIGINAL members): Lm, Ls the two valid lines; Wm, Ws the same
+// names with a wrong digest. Every sequence over it of length 1..3 (all permutations with
+// repetition: one line k times, one duplicated and the other dropped, right and wrong digest
+// for one name in either order, …) plus longer repetitions. Monitor, independent of the model:
+//   - an archive is accepted only if every listed line is valid for the members as they are and
+//     both names are listed (over-acceptance is the violation; signature names what was let through);
+//   - with an altered member nothing here can be accepted (no line carries the new digest).
+func runSumsFamilies(run *hx.Run, r *hx.RNG, b *base, withGz bool) {
+	es := entriesOf(b)
+	if len(es) != 3 {
+		return
+	}
+	hm, hs := sha256.Sum256(es[0].data), sha256.Sum256(es[1].data)
+	wm, ws := hm, hs
+	wm[r.Intn(32)] ^= byte(1 << r.Intn(8))
+	ws[r.Intn(32)] ^= byte(1 << r.Intn(8))
+	line := func(d [32]byte, name string) string { return fmt.Sprintf("%x  %s\n", d, name) }
+	alpha := []struct {
+		tag, text string
+		valid     bool
+		name      string
+	}{
+		{"Lm", line(hm, "meta.json"), true, "meta.json"},
+		{"Ls", line(hs, "state.bin"), true, "state.bin"},
+		{"Wm", line(wm, "meta.json"), false, "meta.json"},
+		{"Ws", line(ws, "state.bin"), false, "state.bin"},
+	}
+	var seqs [][]int
+	var gen func(prefix []int, n int)
+	gen = func(prefix []int, n int) {
+		if n == 0 {
+			seqs = append(seqs, append([]int(nil), prefix...))
+			return
+		}
+		for i := range alpha {
+			gen(append(prefix, i), n-1)
+		}
+	}
+	for n := 1; n <= 3; n++ {
+		gen(nil, n)
+	}
+	// longer repetitions: one line k times (with and without the other), and random length-4/5
+	for k := 4; k <= 6; k++ {
+		for i := 0; i < 2; i++ {
+			rep := make([]int, k)
+			for j := range rep {
+				rep[j] = i
+			}
+			seqs = append(seqs, rep, append(append([]int(nil), rep...), 1-i), append([]int{1 - i}, rep...))
+		}
+	}
+	for k := 0; k < 12; k++ {
+		q := make([]int, 4+r.Intn(2))
+		for j := range q {
+			q[j] = r.Intn(len(alpha))
+		}
+		seqs = append(seqs, q)
+	}
+	// member variants
+	type variant struct {
+		tag         string
+		meta, state []byte
+	}
+	vars := []variant{{"intact", es[0].data, es[1].data}}
+	if len(es[1].data) > 0 {
+		alt := append([]byte(nil), es[1].data...)
+		alt[r.Intn(len(alt))] ^= byte(1 << r.Intn(8))
+		vars = append(vars, variant{"state-altered", es[0].data, alt})
+	} else {
+		vars = append(vars, variant{"state-altered", es[0].data, []byte("x")})
+	}
+	// a metadata change that still decodes: another digit in a number
+	altM := append([]byte(nil), es[0].data...)
+	if i := bytes.Index(altM, []byte(`"Term":`)); i >= 0 {
+		p := i + len(`"Term":`)
+		altM[p] = '0' + (altM[p]-'0'+1)%10
+		vars = append(vars, variant{"meta-altered", altM, es[1].data})
+	}
+	for _, q := range seqs {
+		var text, tag string
+		listed := map[string]bool{}
+		allValid := true
+		for _, i := range q {
+			text += alpha[i].text
+			tag += alpha[i].tag
+			listed[alpha[i].name] = true
+			allValid = allValid && alpha[i].valid
+		}
+		for vi, v := range vars {
+			mustReject := vi != 0 || !allValid || !listed["meta.json"] || !listed["state.bin"]
+			layouts := [][]entry{{{name: "meta.json", data: v.meta}, {name: "state.bin", data: v.state}, {name: "SHA256SUMS", data: []byte(text)}}}
+			if len(q) >= 2 { // the same lines spread over two SHA256SUMS members
+				cut := len(alpha[q[0]].text)
+				layouts = append(layouts, []entry{{name: "SHA256SUMS", data: []byte(text[:cut])}, {name: "meta.json", data: v.meta},
+					{name: "state.bin", data: v.state}, {name: "SHA256SUMS", data: []byte(text[cut:])}})
+			}
+			for li, mod := range layouts {
+				kind := "sums-lines-" + v.tag
+				tarB := buildTar(mod)
+				res, _, op := emitRead(run, tarB)
+				report := func(res result, where string, ops ...string) {
+					if res.ok && mustReject {
+						what := "an invalid or incomplete SHA256SUMS (" + tag + ")"
+						sig := "sums:invalid-list-accepted"
+						switch {
+						case v.tag == "state-altered":
+							sig, what = "sums:altered-state-accepted", "altered state.bin bytes under SHA256SUMS lines "+tag
+						case v.tag == "meta-altered":
+							sig, what = "sums:altered-metadata-accepted", "altered meta.json bytes under SHA256SUMS lines "+tag
+						case !listed["state.bin"] || !listed["meta.json"]:
+							sig = "sums:unlisted-member-accepted"
+						}
+						run.Violate(sig, where+" accepts "+what+fmt.Sprintf(" (original state %d bytes)", len(b.state)), ops)
+					}
+				}
+				report(res, "read", op)
+				checkDamaged(run, b, kind, false, res, op)
+				if res.ok {
+					run.Tag(fmt.Sprintf("sums-lines:accepted:%d-lines", len(q)))
+				}
+				run.Case(fmt.Sprintf("%s/sums-lines/%s/%s/%d", b.tag, tag, v.tag, li), true)
+				if withGz && (len(q) <= 2 || vi != 0) {
+					gres, gop := emitGz(run, nil, gzWrap(tarB), true)
+					report(gres, "Verify/Read", gop)
+					checkDamaged(run, b, "gzip-"+kind, false, gres, gop)
+					run.Case(fmt.Sprintf("%s/gz-sums-lines/%s/%s/%d", b.tag, tag, v.tag, li), true)
+				}
+			}
+		}
+	}
+}
+
 // ---- raw byte strings around a valid archive: garbage before / after, archives glued together
 func runRaw(run *hx.Run, r *hx.RNG, b *base) {
 	zeros := func(n int) []byte { return make([]byte, n) }
@@ -1441,6 +1576,10 @@ func main() {
 		runMemberMutations(run, run.RNG.Fork(uint64(4000+i)), b)
 	}
 	runLongLines(run, bases[3])
+	for i, b := range bases {
+		n := len(b.state)
+		runSumsFamilies(run, run.RNG.Fork(uint64(4700+i)), b, n == 0 || n == 1 || n == 100 || n == 513 || thorough)
+	}
 	for i, b := range bases {
 		runRaw(run, run.RNG.Fork(uint64(4500+i)), b)
 	}
